@@ -22,15 +22,17 @@ class Sub:
 
 
 class Slice:
-    """Adapter: a share of a (heavy) generator's cases - every `step`-th case starting at `offset` in the quick tier, all of
-    them in the thorough tier; everything else is forwarded."""
+    """Adapter: a share of a (heavy) generator's cases - every `step`-th case starting at `offset` in the quick tier, every
+    `thorough_step`-th in the thorough tier (the checks that share a generator use different offsets, so that together they run
+    all of it); everything else is forwarded."""
 
-    def __init__(self, mod, step, offset):
-        self.mod, self.step, self.offset = mod, step, offset
+    def __init__(self, mod, step, offset, thorough_step=1):
+        self.mod, self.step, self.offset, self.thorough_step = mod, step, offset, thorough_step
 
     def gen(self, tier, seed):
         cs = self.mod.gen(tier, seed)
-        return cs if tier != "quick" else [c for i, c in enumerate(cs) if i % self.step == self.offset % self.step]
+        step = self.step if tier == "quick" else self.thorough_step
+        return cs if step <= 1 else [c for i, c in enumerate(cs) if i % step == self.offset % step]
 
     def __getattr__(self, name):
         return getattr(self.mod, name)
